@@ -36,6 +36,10 @@ class LazyBodies:
             # only ever the head of the *type* may differ for a method; for free items only the module segments in between
             cands = [c for c in self._raw if c.split("::")[-len(tail):] == tail and c.split("::")[:2] == segs[:2]
                      and "{closure#" not in c]
+            if not cands:
+                # e.g. a function nested in a method that became a free function of a sibling module
+                cands = [c for c in self._raw if c.split("::")[-len(tail):] == tail and c.split("::")[:1] == segs[:1]
+                         and "{closure#" not in c]
             if len(cands) == 1:
                 res = cands[0]
         self._aliases[k] = res
